@@ -173,10 +173,12 @@ func (s *TunnelServiceHandler) openReverseTunnel(stream tunnelpb.TunnelService_O
 
 	s.reverse.add(ch, key)
 	defer s.reverse.remove(ch)
+	verifYield("reg.add.global", verifChanID(ch))
 
 	rc := s.reverseChannelsForKey(key)
 	rc.add(ch, key)
 	defer rc.remove(ch)
+	verifYield("reg.add.key", verifChanID(ch))
 
 	if s.onReverseTunnelConnect != nil {
 		s.onReverseTunnelConnect(ch)
@@ -195,6 +197,7 @@ func (s *TunnelServiceHandler) unregister(ch *tunnelChannel) {
 		// already removed
 		return
 	}
+	verifYield("reg.unreg.global", verifChanID(ch))
 
 	s.mu.Lock()
 	rc := s.reverseByKey[k]
@@ -202,6 +205,7 @@ func (s *TunnelServiceHandler) unregister(ch *tunnelChannel) {
 	if rc != nil {
 		rc.remove(ch)
 	}
+	verifYield("reg.unreg.key", verifChanID(ch))
 }
 
 type tunnelServiceHandler struct {
@@ -261,6 +265,7 @@ func (c *reverseChannels) pick() grpc.ClientConnInterface {
 	if c.idx >= len(c.chans) {
 		c.idx = 0
 	}
+	verifEvent("reg.pick", verifChanID(c.chans[c.idx].ch), int64(c.idx), int64(len(c.chans)))
 	return c.chans[c.idx].ch
 }
 
